@@ -26,8 +26,10 @@ PROPS = {
     "C02": "vf.harness.deser_e2e",
     "C03": "vf.harness.C03",
     "C04": "vf.harness.C04",
+    "C05": "vf.harness.C05",
     "C06": "vf.harness.C06",
     "C07": "vf.harness.C07",
+    "C08": "vf.harness.C08",
 }
 
 
